@@ -13,11 +13,11 @@
 import Hy.Model.Mux
 import Hy.Drv.Util
 namespace Hy.Drv.C18Mux
-open Hy Hy.Drv Hy.Mux
+open Hy Hy.Drv Hy.Mux Hy.Conn
 
 structure DS where
   st : St := {}
-  payload : List (Nat × Bytes) := []      -- conn id → what its client sends
+  payload : List (Nat × Stream) := []     -- conn id → the chunks its client sends
   sent : List Nat := []                   -- clients that have sent their bytes (B)
   hung : List Nat := []                   -- clients that hung up (finalisation)
   cap : Option Nat × Option Nat := (none, none)  -- mainLoop's captured (socks, http) listeners
@@ -29,7 +29,7 @@ structure DS where
 
 def DS.apply (d : DS) (l : Label) : DS := { d with st := step fixed d.st l }
 
-def DS.payloadOf (d : DS) (c : Nat) : Bytes :=
+def DS.payloadOf (d : DS) (c : Nat) : Stream :=
   match d.payload.find? (fun p => p.1 = c) with
   | some p => p.2
   | none => []
@@ -50,9 +50,9 @@ def stepConn (d : DS) (c : Nat) : DS :=
   | .reading =>
     if d.hung.contains c ∧ ¬ d.sent.contains c then d.apply (.readFail c)
     else if d.sent.contains c then
-      match d.payloadOf c with
-      | [] => d.apply (.readFail c)
-      | b :: _ => { d.apply (.firstByte c b) with order := d.order ++ [c] }
+      -- io.ReadFull over the conn's chunks (empty chunks before the byte are looped over)
+      let d1 := d.apply (readLabel c (d.payloadOf c))
+      if (detect (d.payloadOf c)).isSome then { d1 with order := d.order ++ [c] } else d1
     else d
   | .got _ => d.apply (.pick c)
   | .pending _ t =>
@@ -111,9 +111,9 @@ def round (d : DS) : DS :=
 
 def settle (d : DS) : DS := (List.range 6).foldl (fun d _ => round d) d
 
-def parseConnTok (s : String) : Option (Nat × Bytes) :=
+def parseConnTok (s : String) : Option (Nat × Stream) :=
   match s.splitOn "=" with
-  | [c, p] => match c.toNat?, ofHex p with
+  | [c, p] => match c.toNat?, parseChunks p with
     | some c, some p => some (c, p)
     | _, _ => none
   | _ => none
@@ -174,9 +174,11 @@ def showConn (d : DS) (c : Nat) : String :=
   | .fresh => s!"c{c}=unused"
   | .delivered b t =>
     -- what the handler reads through connWithOneByte with the harness's read sizes
-    let w : OneByte := { b := b, bRead := false, conn := [(d.payloadOf c).drop 1] }
-    let r := OneByte.reads (List.replicate 4 readPattern).flatten w
-    s!"c{c}=d{t}:{toHexF (r.1.flatten ++ r.2.pending)}"
+    match wrapped (d.payloadOf c) with
+    | some w =>
+      let r := OneByte.reads (List.replicate 4 readPattern).flatten w
+      s!"c{c}=d{t}:{toHexF (r.1.flatten ++ r.2.pending)}"
+    | none => s!"c{c}=d{t}:?{b.val}"
   | .closed => s!"c{c}=x"
   | _ => s!"c{c}=lost"
 
